@@ -813,7 +813,66 @@ def r12_19(chk):
     chk.floor("R12.19", 6, "shared options of the delegating collection methods")
 
 
+def r12_20(chk):
+    chk.rule("R12.20", "a codon means the same in every per-codon question of a genetic code: in both GeneticCode classes a method that takes a `codon` either asks the normalising lookup (`self[codon]`, which upper-cases and reads U as T) or normalises it itself the same way (.upper() and .replace('U', 'T')) before any membership test or table lookup -- a raw `codon in <table>` answers False for the RNA / lower-case spelling of a stop (is_stop('UAA') False while gc['UAA'] == '*'), so terminal stops of RNA sequences are neither detected nor trimmed")
+    n = 0
+    for rel in ("core/genetic_code.py", "core/new_genetic_code.py"):
+        m = chk.repo.module(rel)
+        ci = m.cls("GeneticCode")
+        for name, fn in ci.methods.items():
+            if not isinstance(fn, ast.FunctionDef) or name == "__getitem__":
+                continue
+            ps = params_of(fn)
+            if "codon" not in ps:
+                continue
+            n += 1
+            q = f"GeneticCode.{name}"
+            k = key(m, q, "codon normalised before it is looked up")
+            # names carrying the codon, and whether they were normalised
+            state = {"codon": set()}
+            for st in walk_no_nested(fn):
+                if isinstance(st, ast.Assign) and len(st.targets) == 1 and isinstance(st.targets[0], ast.Name):
+                    srcs = [x.id for x in ast.walk(st.value) if isinstance(x, ast.Name) and x.id in state]
+                    if srcs:
+                        ops = set()
+                        for s0 in srcs:
+                            ops |= state[s0]
+                        for c in ast.walk(st.value):
+                            if isinstance(c, ast.Call) and isinstance(c.func, ast.Attribute):
+                                if c.func.attr == "upper":
+                                    ops.add("upper")
+                                if c.func.attr == "replace" and len(c.args) == 2 and [getattr(a, "value", None) for a in c.args] == ["U", "T"]:
+                                    ops.add("u2t")
+                        state[st.targets[0].id] = ops
+            bad = []
+            for x in walk_no_nested(fn):
+                uses = []
+                if isinstance(x, ast.Compare) and len(x.ops) == 1 and isinstance(x.ops[0], (ast.In, ast.NotIn)):
+                    uses.append(x.left)
+                if isinstance(x, ast.Subscript) and norm(x.value) != "self":
+                    uses.append(x.slice)
+                if isinstance(x, ast.Call) and isinstance(x.func, ast.Attribute) and x.func.attr == "get" and x.args and norm(x.func.value) != "self":
+                    uses.append(x.args[0])
+                for u in uses:
+                    ops = set()
+                    carries = False
+                    for y in ast.walk(u):
+                        if isinstance(y, ast.Name) and y.id in state:
+                            carries = True
+                            ops |= state[y.id]
+                        if isinstance(y, ast.Call) and isinstance(y.func, ast.Attribute):
+                            if y.func.attr == "upper":
+                                ops.add("upper")
+                            if y.func.attr == "replace" and len(y.args) == 2 and [getattr(a, "value", None) for a in y.args] == ["U", "T"]:
+                                ops.add("u2t")
+                    if carries and not {"upper", "u2t"} <= ops:
+                        bad.append(x)
+            chk.decide(not bad, "R12.20", k, m.loc(bad[0] if bad else fn), "asks self[codon] or normalises (upper, U->T) first", f"`{norm(bad[0])[:70] if bad else ''}` looks the codon up as spelt: the RNA or lower-case spelling of a codon gets another answer than `self[codon]` gives (the sibling class and the translation itself read U as T)")
+    chk.floor("R12.20", 3, "is_stop x2, is_start")
+
+
 def run(chk):
+    r12_20(chk)
     r12_19(chk)
     r12_18(chk)
     r12_17(chk)
